@@ -25,9 +25,25 @@ func removable(sp *Spec, x *X, b int) bool {
 	if bs.Rm || sp.Pop {
 		return true
 	}
-	for _, c := range x.Calls {
-		if c.Op == fmt.Sprintf("abort%d(true)", b) {
-			return true
+	// Abort(true) makes the bar removable unless the bar had already completed when it was issued
+	// (same client, program order): Abort has no effect on a completed bar
+	for ci, ops := range sp.Clients {
+		_ = ci
+		completedBefore := false
+		sum := int64(0)
+		for _, o := range ops {
+			if o.B != b {
+				continue
+			}
+			if o.K == "incr" {
+				sum += o.N
+				if bs.Total > 0 && sum >= bs.Total {
+					completedBefore = true
+				}
+			}
+			if o.K == "abort" && o.F && !completedBefore {
+				return true
+			}
 		}
 	}
 	// a bar with a successor queued behind it is replaced by it
@@ -93,6 +109,21 @@ func c05Oracle(sp *Spec, x *X, res *mcrt.Result) (string, string) {
 			}
 		}
 	}
+	// a bar that is set to be removed is drawn terminal at most twice (the second terminal frame drops it)
+	for b := range sp.Bars {
+		if !sp.Bars[b].Rm || sp.Pop {
+			continue
+		}
+		t := 0
+		for _, f := range frames {
+			if r := f.Row(b); r != nil && r.Flags == "C" {
+				t++
+			}
+		}
+		if t > 2 {
+			return "removable-bar-stays", fmt.Sprintf("bar %d is set to be removed on completion but was drawn completed in %d frames", b, t)
+		}
+	}
 	if sp.Notifier {
 		ids, ok := notifiedIDs(x)
 		if !ok {
@@ -152,6 +183,29 @@ func c05Programs(tier string) []*Spec {
 			if rf == "manual" {
 				sp.Clients = append(sp.Clients, []Op{{K: "refresh"}, {K: "refresh"}, {K: "refresh"}, {K: "refresh"}})
 			}
+			out = append(out, sp)
+		}
+	}
+	// Abort arriving on a bar that has just completed (before its second terminal frame) changes nothing: a plain bar
+	// stays, a remove-on-complete bar still goes
+	for _, rf := range []string{"auto", "manual"} {
+		for _, rm := range []bool{false, true} {
+			sp := &Spec{Name: fmt.Sprintf("c05-abort-after-complete-rm%v", rm), Refresh: rf, Q: -1, Notifier: true}
+			sp.Bars = []BarSpec{{Total: 2, Rm: rm}, {Total: 9}}
+			sp.Main = []Op{{K: "add", B: 0}, {K: "add", B: 1}}
+			ops := []Op{{K: "incr", B: 0, N: 2}, {K: "abort", B: 0, F: !rm}}
+			fin := []Op{{K: "incr", B: 1, N: 1}}
+			if rf == "manual" {
+				ops = append(ops, Op{K: "refresh"}, Op{K: "refresh"}, Op{K: "refresh"}, Op{K: "refresh"})
+				fin = append(fin, Op{K: "refresh"}, Op{K: "refresh"})
+			} else {
+				fin = append(fin, Op{K: "barwait", B: 0}, Op{K: "get", B: 0})
+			}
+			fin = append(fin, Op{K: "incr", B: 1, N: 8})
+			if rf == "manual" {
+				fin = append(fin, Op{K: "refresh"}, Op{K: "refresh"}, Op{K: "refresh"})
+			}
+			sp.Clients = [][]Op{ops, fin}
 			out = append(out, sp)
 		}
 	}
